@@ -102,6 +102,57 @@ def replay_bytewriter(p):
     return _res(bad, {'prior': n0, 'writes': [n1, n2, n3]})
 
 
+def replay_buffer_file(p):
+    """Real BufferedOutput + real ByteWriter on a real temporary file (prior content of n0 bytes, or no file)."""
+    _quiet()
+    from dliswriter.file.writer import BufferedOutput, ByteWriter
+    B, had_file, n0, s1, s2, s3, explicit, n_recs = p['args'][:8]
+    sizes = [s1, s2, s3][:n_recs]
+    if B > 1 << 27:
+        B = max(max(sizes), 1 << 20) + (B % 4096) if sum(sizes) <= B else B
+        if B > 1 << 27:
+            return {'reproduced': False, 'ok': True, 'detail': f'buffer of {B} bytes not materialised'}
+        B = max(B, sum(sizes))               # same regime: everything fits
+    path = fresh_tmp('.bin')
+    bad = ''
+    try:
+        if had_file:
+            with open(path, 'wb') as f:
+                f.write(b'P' * n0)
+        elif os.path.exists(path):
+            os.remove(path)
+        bw = ByteWriter(path)
+        sul = b'S' * 80
+        bw.write_bytes(sul)
+        bo = BufferedOutput(B, bw)
+        exp = sul
+        bounds = [80]
+        seen = []
+        for k in range(n_recs):
+            data = bytes([65 + k]) * sizes[k]
+            bo.add_bytes(data, sizes[k]) if explicit else bo.add_bytes(data)
+            exp += data
+            bounds.append(len(exp))
+            with open(path, 'rb') as f:
+                cur = f.read()
+            seen.append(len(cur))
+            if len(cur) not in bounds or cur != exp[:len(cur)]:
+                bad = bad or f'after record {k + 1}: the file holds {len(cur)} bytes that are not the label and whole records (boundaries {bounds})'
+        bo.pass_bytes_to_writer()
+        with open(path, 'rb') as f:
+            cur = f.read()
+        if cur != exp:
+            bad = bad or f'final file has {len(cur)} bytes, expected {len(exp)} (label + {n_recs} records)' + ('' if len(cur) != len(exp) else ': content differs')
+        if bw.total_size != len(exp):
+            bad = bad or f'total_size {bw.total_size} != {len(exp)}'
+    finally:
+        try:
+            os.remove(path)
+        except OSError:
+            pass
+    return _res(bad, {'B': B, 'prior': n0 if had_file else None, 'records': sizes})
+
+
 def replay_chunk_size(p):
     _quiet()
     from dliswriter.file.writer import DLISWriter
